@@ -115,13 +115,14 @@ def r1(db, rep, proc):
     ok = False
     for n in facts.fn_nodes(ap):
         if n["k"] == "ReturnStmt" and n.get("c") and (facts.cval(n["c"][0]) == 0):
-            gf = cond.guards_facts(g2, g2.pos(n))
+            gf = [(op, facts.inline_locals(ap, l), facts.inline_locals(ap, rr) if rr is not None else None)
+                  for op, l, rr in cond.guards_facts(g2, g2.pos(n))]
             if any(op == "!=" and "offset()" in (facts.expr_str(l) + facts.expr_str(rr)) and "expected" in (facts.expr_str(l) + facts.expr_str(rr))
                    for op, l, rr in gf if rr is not None):
                 inloop = any(l["k"] in ("ForStmt", "WhileStmt") and any(x is n for x in facts.walk(l)) for l in facts.fn_nodes(ap))
                 ok = inloop
     upd = [n for n in facts.fn_nodes(ap) if n["k"] == "BinaryOperator" and n["op"] == "=" and facts.expr_str(n["c"][0]) == "expected"
-           and "offset()" in facts.expr_str(n["c"][1]) and "size()" in facts.expr_str(n["c"][1])]
+           and "offset()" in facts.expr_str(facts.inline_locals(ap, n["c"][1])) and "size()" in facts.expr_str(facts.inline_locals(ap, n["c"][1]))]
     if ok and upd:
         rep.ok("R1-complete", "allocate_pdu:contiguity", facts.loc(ap), "returns null at the first fragment whose offset differs from the running end; running end = offset + size")
     else:
@@ -314,6 +315,19 @@ def r4(db, rep):
         at = cond.facts_of(af, c0, True)
         if any(op in (">", "<", ">=", "<=") and "offset" in facts.expr_str(l_) + facts.expr_str(r_) for op, l_, r_ in at if r_ is not None):
             search = c0
+    if search is None and itdecl and itdecl[0].get("c"):
+        # the same search as a std algorithm: it = find_if(C.begin(), C.end(), P) with P comparing offsets
+        for x in facts.walk(itdecl[0]["c"][0]):
+            if x["k"] == "CallExpr" and x.get("cname") in ("find_if", "find_if_not", "lower_bound", "upper_bound", "partition_point") and len(x["c"]) >= 4 \
+                    and "begin" in facts.expr_str(x["c"][1]) and "end" in facts.expr_str(x["c"][2]):
+                pt = facts.ty(af, facts.strip_all(x["c"][-1])) or {}
+                while pt.get("k") == "ref" and pt.get("to"):
+                    pt = pt["to"]
+                for pf in db.functions.values():
+                    if pf.get("rec") == pt.get("name") and pf.get("name") == "operator()" and pf.get("body"):
+                        if any(y["k"] == "BinaryOperator" and y.get("op") in ("<", ">", "<=", ">=") and "offset" in facts.expr_str(y)
+                               for y in facts.fn_nodes(pf)):
+                            search = x
     if okb and search is not None and dup is not None and g.before_on_all_paths(g.pos(search), g.pos(dup)):
         rep.ok("R4-accounting", "add_fragment:ordered-search", facts.loc(af, search),
                "position found by a search from begin() that runs on every path before the duplicate test")
